@@ -75,7 +75,9 @@ func runPairIn(env *run.Env, c *pairCase, dir string, quiet bool) run.Result {
 func warningLines(stderr string) string {
 	var l []string
 	for _, line := range strings.Split(stderr, "\n") {
-		if strings.HasPrefix(line, "WARNING>>>") {
+		// The diagnostics the tool reports as results (do-approve copies
+		// exactly these lines to its output and to the history file).
+		if strings.HasPrefix(line, "WARNING>>>") || strings.HasPrefix(line, "ERROR>>>") {
 			l = append(l, line)
 		}
 	}
@@ -297,6 +299,40 @@ func c16TieCases() []*pairCase {
 			"router.raw": "*filter\n:x1 -\n:x2 -\n:x3 -\n:x4 -\n-A x1 -j ACCEPT\n-A x2 -j ACCEPT\nCOMMIT\n" +
 				"*nat\n:PREROUTING ACCEPT\nCOMMIT\n*mangle\n:PREROUTING ACCEPT\nCOMMIT\n*raw\n:PREROUTING ACCEPT\nCOMMIT\n"})
 
+	// Several input problems of one kind at once: which one is reported
+	// must not change from run to run.
+	{
+		iosIntf := func(names ...string) string {
+			s := ""
+			for i, n := range names {
+				s += fmt.Sprintf("interface %s\n ip address 10.1.%d.1 255.255.255.0\n", n, i+1)
+			}
+			return s
+		}
+		add("IOS", "ios-several-netspoc-interfaces-unknown-on-device", iosIntf("Serial1"),
+			map[string]string{"router": iosIntf("Serial1", "Serial2", "Serial3", "Serial4", "Serial5")})
+		add("IOS", "ios-several-interfaces-with-other-address", iosIntf("Serial1", "Serial2", "Serial3", "Serial4"),
+			map[string]string{"router": strings.ReplaceAll(iosIntf("Serial1", "Serial2", "Serial3", "Serial4"), "10.1.", "10.7.")})
+		add("IOS", "ios-several-device-interfaces-unknown-to-netspoc", iosIntf("Serial1", "Serial2", "Serial3", "Serial4", "Serial5"),
+			map[string]string{"router": iosIntf("Serial1")})
+		asaDev := "interface Ethernet0/0\n nameif inside\n"
+		asaSpoc := ""
+		for i, n := range []string{"inside", "dmz1", "dmz2", "dmz3", "dmz4"} {
+			asaSpoc += fmt.Sprintf("access-list %s_in extended permit tcp any4 host 10.9.%d.9 eq 80\naccess-group %s_in in interface %s\n", n, i, n, n)
+		}
+		add("ASA", "asa-several-netspoc-interfaces-unknown-on-device", asaDev, map[string]string{"router": asaSpoc})
+		asaDev2 := ""
+		for i, n := range []string{"inside", "dmz1", "dmz2", "dmz3", "dmz4"} {
+			asaDev2 += fmt.Sprintf("interface Ethernet0/%d\n nameif %s\n", i, n)
+		}
+		add("ASA", "asa-several-device-interfaces-unknown-to-netspoc", asaDev2+"access-list inside_in extended permit tcp any4 host 10.9.0.9 eq 80\naccess-group inside_in in interface inside\n",
+			map[string]string{"router": "access-list inside_in extended permit tcp any4 host 10.9.0.9 eq 81\naccess-group inside_in in interface inside\n"})
+		// References to several objects that are defined nowhere.
+		add("ASA", "asa-several-undefined-references", asaDev,
+			map[string]string{"router": "access-list inside_in extended permit ip object-group gA object-group gB\n" +
+				"access-list inside_in extended permit ip object-group gC object-group gD\naccess-group inside_in in interface inside\n"})
+	}
+
 	// ASA raw with many same-kind objects and two problems at once.
 	rawMany := ""
 	for i := 0; i < 9; i++ {
@@ -380,10 +416,10 @@ func checkC16(tier, replay string) int {
 		"rules differing in several options, raw/v6 merges with many same-kind objects, two bad references), "+
 		"all file-mode pairs of go/testdata/*.t and generated convergence pairs. Each input is run by %d fresh drc processes; "+
 		"a case is non-trivial if the tool accepted it with a non-empty script or warnings. "+
-		"Violation: stdout, exit status or WARNING>>> lines differ between runs. Other stderr differences are anomalies.", n)
+		"Violation: stdout, exit status or the WARNING>>> / ERROR>>> lines differ between runs. Other stderr differences (order of information lines) are anomalies.", n)
 	rep.Assumptions = []string{
 		"GOMAXPROCS=4 in children; Go randomises map iteration per range statement, so N runs sample the orders",
-		"text of the single ERROR>>> line and of info lines is outside the statement (scripts, warnings, exit status)",
+		"the ERROR>>> line of a refused input is judged like the WARNING>>> lines (both are the diagnostics do-approve relays as the result of a run; title and observation point of the property are 'output' and 'stdout/stderr'); the order of information lines is outside the statement",
 	}
 
 	var cases []*pairCase
@@ -437,7 +473,7 @@ func checkC16(tier, replay string) int {
 			distinctOut[fmt.Sprintf("%d\x00%s\x00%s", o.exit, o.stdout, o.warn)] = true
 			distinctErr[o.stderr] = true
 		}
-		nontrivial := first.exit == 0 && (first.stdout != "" || first.warn != "")
+		nontrivial := first.stdout != "" || first.warn != ""
 		rep.Case(c.hash(), nontrivial)
 		patterns[c.Pattern]++
 		rep.Count("runs", n)
@@ -447,7 +483,7 @@ func checkC16(tier, replay string) int {
 		}
 		if len(distinctOut) > 1 {
 			key := c.Model + ":" + c.Pattern
-			what := fmt.Sprintf("%d different (stdout, exit, warnings) results in %d runs [%s]",
+			what := fmt.Sprintf("%d different (stdout, exit, warning/error lines) results in %d runs [%s]",
 				len(distinctOut), n, c.Origin)
 			rep.Violation(key, what, func(dir string) {
 				b, _ := json.MarshalIndent(c, "", " ")
